@@ -10,6 +10,8 @@ enum Op {
     Write(isize, u64),
     Acc(isize, isize),
     Check(isize),
+    /// the probe of the checked engines: test a cell and request a range only when it is not accessible
+    Probe(isize, isize, isize),
 }
 
 fn parse_ops(s: &str) -> Vec<Op> {
@@ -23,6 +25,7 @@ fn parse_ops(s: &str) -> Vec<Op> {
                 "w" => Op::Write(f[1].parse().unwrap(), f[2].parse().unwrap()),
                 "a" => Op::Acc(f[1].parse().unwrap(), f[2].parse().unwrap()),
                 "c" => Op::Check(f[1].parse().unwrap()),
+                "p" => Op::Probe(f[1].parse().unwrap(), f[2].parse().unwrap(), f[3].parse().unwrap()),
                 k => panic!("bad op {k}"),
             }
         })
@@ -71,13 +74,23 @@ fn run_w<C: CellType>(ops: &[Op]) -> String {
                 mem.make_accessible(*a, *b);
                 obs.push("-".to_string());
             }
+            Op::Probe(c, a, b) => {
+                let hit = mem.check(*c);
+                if !hit {
+                    mem.make_accessible(*a, *b);
+                    if !mem.check(*c) {
+                        facts.push(format!("probed-cell-not-accessible-after-request@{i}"));
+                    }
+                }
+                obs.push(format!("p={}", if hit { 1 } else { 0 }));
+            }
         }
         let (size1, off1) = mem.verif_raw();
         if size1 != size0 {
             growths += 1;
             // contract: where did the request lie relative to the old buffer?
             let (a, b) = match op {
-                Op::Acc(a, b) => (*a as i128, *b as i128),
+                Op::Acc(a, b) | Op::Probe(_, a, b) => (*a as i128, *b as i128),
                 Op::Write(o, _) => (*o as i128, *o as i128 + 1),
                 _ => {
                     facts.push(format!("growth-by-nongrowing-op@{i}"));
@@ -156,6 +169,11 @@ fn run_fail_w<C: CellType>(ops: &[Op], k: i64) -> String {
             }
             Op::Write(o, v) => mem.write(*o, C::from_u64(*v)),
             Op::Acc(a, b) => mem.make_accessible(*a, *b),
+            Op::Probe(c, a, b) => {
+                if !mem.check(*c) {
+                    mem.make_accessible(*a, *b);
+                }
+            }
         }
         done += 1;
     }
